@@ -656,7 +656,7 @@ static int ec_insert(char *loc, char *cmd, char *arg, char *txt)
 	if (ex_region(loc, &beg, &end) && (beg != 0 || end != 0))
 		return 1;
 	if (cmd[0] == 'a')
-		if (beg + 1 <= lbuf_len(xb))
+		if (end > beg)
 			beg++;
 	if (cmd[0] != 'c')
 		end = beg;
